@@ -45,6 +45,8 @@ def _call(args):
     when the implementation under test loops inside C code (regular expressions)."""
     if not _POOL_TIMEOUT:
         return _call_plain(args)
+    if _breaker_open():
+        return {"__timeout__": True, "not_run": True}
     import pickle, select, signal
     r, w = os.pipe()
     pid = os.fork()
@@ -79,11 +81,31 @@ def _call(args):
             pass
     os.waitpid(pid, 0)
     if timed_out:
+        _breaker_hit()
         return {"__timeout__": True}
     try:
         return pickle.loads(b"".join(chunks))
     except Exception:  # noqa: BLE001 - the child died without an answer (SystemExit via os._exit, crash)
         return {"__died__": True}
+
+
+# circuit breaker: once this many cases of one map have hit the time limit, the rest is not run (each would cost the full
+# limit again); they get the verdict {"__timeout__": True, "not_run": True} and the check reports the violations it has
+TIMEOUT_BREAKER = 48
+_BREAKER_FILE = None
+
+
+def _breaker_open():
+    try:
+        return _BREAKER_FILE is not None and os.path.getsize(_BREAKER_FILE) >= TIMEOUT_BREAKER
+    except OSError:
+        return False
+
+
+def _breaker_hit():
+    if _BREAKER_FILE is not None:
+        with open(_BREAKER_FILE, "ab") as f:
+            f.write(b"x")
 
 
 def _call_batch(batch):
@@ -94,6 +116,9 @@ def _call_batch(batch):
     results = []
     todo = list(batch)
     while todo:
+        if _breaker_open():
+            results.extend({"__timeout__": True, "not_run": True} for _ in todo)
+            break
         r, w = os.pipe()
         pid = os.fork()
         if pid == 0:
@@ -141,6 +166,8 @@ def _call_batch(batch):
         os.waitpid(pid, 0)
         if verdict is None:
             break
+        if "__timeout__" in verdict:
+            _breaker_hit()
         results.append(verdict)
         todo = todo[got + 1:]
     return results
@@ -158,6 +185,13 @@ def pmap(fn, items, chunksize=None, procs=None, timeout=None, batch=None):
     procs = min(procs or common.NCPU, len(items))
     _POOL_FN = fn
     _POOL_TIMEOUT = timeout
+    global _BREAKER_FILE
+    _BREAKER_FILE = None
+    if timeout:
+        import tempfile
+        os.makedirs(os.path.join(common.WORK, "tmp"), exist_ok=True)
+        fd, _BREAKER_FILE = tempfile.mkstemp(prefix="breaker", dir=os.path.join(common.WORK, "tmp"))
+        os.close(fd)
     if timeout and batch and batch > 1:
         batches = [items[i:i + batch] for i in range(0, len(items), batch)]
         ctx = mp.get_context("fork")
